@@ -386,15 +386,27 @@ func (g *gen) captureProbes(res instResult) {
 	in := res.Inst
 	saveO, saveS := g.override, g.suffix
 	defer func() { g.override, g.suffix = saveO, saveS }()
+	// ref.null items first (a slot may be written by several segments; only the last write is observable)
+	for _, p := range res.Probes {
+		if p.Site != "elem-null-item" || in.tabs[p.Table].slots[p.Slot].fn != nil {
+			continue
+		}
+		g.override, g.suffix = "active-elem-segment:ref.null-item", ""
+		g.count("elem_null_item_overwrites_entry")
+		if _, ok := in.lay.ByName[fmt.Sprintf("tisnull%d", p.Table)]; ok {
+			g.call(in, fmt.Sprintf("tisnull%d", p.Table), uint64(p.Slot))
+			g.setAlt("not-written", 0)
+		}
+	}
 	for _, p := range res.Probes {
 		if p.Site == "elem-null-item" {
-			g.override, g.suffix = "active-elem-segment:ref.null-item", ""
-			g.count("elem_null_item_overwrites_entry")
-			if _, ok := in.lay.ByName[fmt.Sprintf("tisnull%d", p.Table)]; ok {
-				g.call(in, fmt.Sprintf("tisnull%d", p.Table), uint64(p.Slot))
-				g.setAlt("not-written", 0)
-			}
 			continue
+		}
+		if (p.Site == "elem-offset" || p.Site == "elem-init") && in.tabs[p.Table].slots[p.Slot] != p.Want {
+			continue // overwritten by a later segment
+		}
+		if p.Site == "data-offset" && in.mem.data[p.Addr] != p.Byte {
+			continue // overwritten by a later segment or the start function
 		}
 		g.override = "const-expr:global.get-" + mutName(p.Mutable) + "-import"
 		g.suffix = "site=" + p.Site
@@ -455,6 +467,23 @@ func (g *gen) captureProbes(res instResult) {
 				if p.PrevRef.fn != p.Want.fn {
 					g.count("capture_discriminating_" + p.Site + "_" + mutName(p.Mutable))
 				}
+			}
+		}
+	}
+	// passive segment items that read a mutable imported funcref global: table.init one of them and look at it
+	if pe := in.lay.PassElem; pe >= 0 {
+		e := in.spec.Elems[pe]
+		name := fmt.Sprintf("tinit%d", e.Table)
+		if _, ok := in.lay.ByName[name]; ok && len(in.tabs[e.Table].slots) > 0 {
+			for k, it := range e.Items {
+				if it.Kind != "global" || !in.globs[it.Ref].typ.Mutable {
+					continue
+				}
+				g.override, g.suffix = "const-expr:global.get-mutable-import", "site=passive-elem-init"
+				g.count("capture_passive-elem-init_mutable")
+				g.call(in, name, 0, uint64(k), 1)
+				g.refProbe(in, e.Table, 0)
+				break
 			}
 		}
 	}
